@@ -120,7 +120,7 @@ def run_shard(shard):
         for ql, msg in bad:
             acc.violation("%s/%s %s %s" % (ln, nn, labels, ql), {"cfg": cfg, "history": hist}, "%s: %s" % (ql, msg))
 
-    S.explore(cfg, labels, shard["depth"], acc, visit, first_ops=_near_ops(arms0, cf, ln))
+    S.explore(cfg, labels, shard["depth"], acc, visit, first_ops=_near_ops(arms0, cf, ln), query=True)
     return acc.result()
 
 
